@@ -6,16 +6,22 @@ Open Scope Z_scope.
 (* The full statement, kept visible; it holds of the repaired code (C07_full_holds below). *)
 Definition C07_full : Prop := full_lines /\ full_send.
 
-(* Write never panics, never loops for ever, reports len(p) and keeps pos = size,
-   for every state the writer can be in (file present or removed/renamed by somebody else),
-   every maximum size and every clock *)
+(* Write never panics and never loops for ever, for every state the writer can be in (file present
+   or removed/renamed by somebody else), every maximum size and every clock.  While the directory
+   of the log is reachable it reports len(p) and keeps pos = size and the descriptor on the file
+   at the path; while it is not, Stat and reopen fail: the error is returned and NOTHING changes -
+   descriptor and position are kept for when the destination is back *)
 Theorem C07_write_total : forall clk st p,
-  rinv st -> exists st', rf_write clk st p = WOk st' (zlen p) /\ rinv st' /\ rf_max st' = rf_max st.
+  rinv st ->
+  (rf_dir st = true -> exists st', rf_write clk st p = WOk st' (zlen p) /\ rinv st' /\ rf_max st' = rf_max st) /\
+  (rf_dir st = false -> rf_write clk st p = WErr st).
 Proof. exact write_total. Qed.
 
-(* the same for whole histories of writes, outside removals/renames and restarts *)
+(* the same for whole histories of writes, outside removals/renames of the file, outages of its
+   directory and restarts: every Write issued while the destination is reachable returns len(p),
+   the others an error; nothing is ever written through a descriptor whose file has left the path *)
 Theorem C07_history_total : forall max s init ops,
-  exists st, run (rf_open max s init) [] ops = Some (st, written_lens ops) /\ rinv st.
+  exists st, run (rf_open max s init) [] ops = Some (st, written_lens true ops) /\ rinv st /\ rf_lost st = [].
 Proof. exact history_total. Qed.
 
 (* a file - active, rotated, renamed away or removed - exceeds the maximum size only if it is a
@@ -29,22 +35,25 @@ Theorem C07_size_bound : forall max s init ops st rets,
   Forall (fits max) (rf_gone st).
 Proof. exact size_bound. Qed.
 
-(* one Write: its bytes are, in order, in the files it rotated away and the active file; the
-   only bytes not in a file are newlines ending the last line of a rotated file; the i-th rotation
-   is stamped with the i-th clock reading; no name in the directory is used twice *)
+(* one Write while the destination is reachable: its bytes are, in order, in the files it rotated
+   away and the active file; the only bytes not in a file are newlines ending the last line of a
+   rotated file; the i-th rotation is stamped with the i-th clock reading; no name in the directory
+   is used twice; nothing goes through a stale descriptor *)
 Theorem C07_write_accounts : forall clk st p,
-  rinv st ->
+  rinv st -> rf_dir st = true ->
   exists st' hs, rf_write clk st p = WOk st' (zlen p) /\
     rf_hist st' = rf_hist st ++ hs /\
     rf_rot st' = rf_rot st ++ hist_files hs /\
     hist_stream hs ++ rf_cur st' = rf_cur st ++ p /\
     Forall (fun e => h_skipped e = [NL] \/ (h_skipped e = [] /\ h_kind e = RFresh)) hs /\
     map h_sec hs = map clk (seq 0 (length hs)) /\
-    (NoDup (map fst (rf_rot st)) -> NoDup (map fst (rf_rot st'))).
+    (NoDup (map fst (rf_rot st)) -> NoDup (map fst (rf_rot st'))) /\
+    rf_lost st' = rf_lost st.
 Proof. exact write_accounts. Qed.
 
 (* all histories: every file that ever was at <path> (oldest first, with the newline skipped at
-   its rotation) followed by the active file = what was there ++ everything written *)
+   its rotation) followed by the active file = what was there ++ everything written while the
+   destination was reachable ([written_of] skips exactly the writes that returned an error) *)
 Theorem C07_bytes_accounted : forall max s init ops st rets,
   run (rf_open max s init) [] ops = Some (st, rets) ->
   hist_stream (rf_hist st) ++ rf_cur st = init ++ written_of ops.
@@ -57,16 +66,18 @@ Theorem C07_rotated_name_is_fresh : forall s d,
 Proof. exact free_k_spec. Qed.
 
 (* ALL histories (writes with any batching, any clock, outside removals and renames of the log
-   file, restarts): the files that left <path>, oldest first, followed by the active file hold
-   exactly the lines written - each once, in order, none cut; the directory of rotated files, the
-   files renamed away and the files removed are exactly the corresponding entries of that history,
-   and no rotated name was used twice (nothing was replaced) *)
+   file, its directory unreachable for any stretch and back, restarts): the files that left <path>,
+   oldest first, followed by the active file hold exactly the lines written while the destination
+   was reachable - each once, in order, none cut.  In particular every line written after the
+   destination came back is there.  The directory of rotated files, the files renamed away and the
+   files removed are exactly the corresponding entries of that history, no rotated name was used
+   twice, and nothing was written through a stale descriptor *)
 Theorem C07_lines_kept_all_histories : forall max s init ops st rets,
-  aligned_b init = true -> writes_aligned ops = true -> no_blank_b (init ++ written_of ops) = true ->
+  aligned_b init = true -> writes_aligned true ops = true -> no_blank_b (init ++ written_of ops) = true ->
   run (rf_open max s init) [] ops = Some (st, rets) ->
   hist_lines (rf_hist st) ++ lines_of (rf_cur st) = lines_of (init ++ written_of ops) /\
   rf_rot st = hist_rot (rf_hist st) /\ rf_moved st = hist_moved (rf_hist st) /\
-  rf_gone st = hist_gone (rf_hist st) /\ NoDup (map fst (rf_rot st)).
+  rf_gone st = hist_gone (rf_hist st) /\ NoDup (map fst (rf_rot st)) /\ rf_lost st = [].
 Proof. exact lines_kept_all. Qed.
 
 (* nobody removed or renamed the log file: the rotated files in rotation order followed by the
@@ -83,9 +94,23 @@ Theorem C07_scan_is_index_loop : forall p j,
   end.
 Proof. exact scan_down_spec. Qed.
 
+(* the channel end to end, for ALL event sequences: encodable events, events the encoder rejects
+   (at any position), faults of the destination between flushes (file removed, renamed, directory
+   away, directory back).  Once a second has passed without request, the files that ever were at
+   the path (oldest first) and the active file hold exactly the encodable events sent while the
+   destination was reachable - each once, in order, uncut: an unencodable event costs no other
+   event its line, and after an outage every later event gets its line *)
+Theorem C07_channel_lines : forall max s init es clk w w',
+  wl_new max true s init = Some w ->
+  aligned_b init = true -> sends_aligned es = true -> no_blank_b (init ++ wl_accepted true es) = true ->
+  wl_run w (es ++ [EIdle clk]) = Some w' ->
+  hist_lines (rf_hist (wl_rf w')) ++ lines_of (rf_cur (wl_rf w')) = lines_of (init ++ wl_accepted true es) /\
+  wl_buf w' = [] /\ rf_lost (wl_rf w') = [].
+Proof. exact channel_lines. Qed.
+
 (* New hands out a channel exactly when max >= 1024 and the destination can be opened (otherwise
    it returns an error and there is nothing to Send on); on every channel handed out the writer
-   receives every request, for all sequences of requests and idle seconds: Send always returns *)
+   receives every request, for all sequences of requests (encodable or not), idle seconds and destination faults: Send always returns *)
 Theorem C07_send_always_returns : full_send.
 Proof. exact full_send_holds. Qed.
 
@@ -127,6 +152,33 @@ Example C07_nonvacuous_same_second :
   end = true.
 Proof. vm_compute. reflexivity. Qed.
 
+(* an outage of the directory over the second of three writes: the first and the third are there,
+   the second returned an error; a channel with an unencodable event in the middle of a burst and an
+   outage over the second burst *)
+Example C07_nonvacuous_outage :
+  let ops := [OWrite clk0 (mkline 97 97); ODirAway; OWrite clk0 (mkline 98 97); ODirBack; OWrite clk0 (mkline 99 97)] in
+  match run (rf_open 1024 0 []) [] ops with
+  | Some (st, rets) => hyps_ok ops && lines_match st ops && (length (files_lines st) =? 2)%nat
+                       && (length rets =? 3)%nat
+                       && match rets with [Some _; None; Some _] => true | _ => false end
+                       && beq (rf_cur st) (mkline 97 97 ++ mkline 99 97)
+  | None => false
+  end = true.
+Proof. vm_compute. reflexivity. Qed.
+
+Example C07_nonvacuous_channel :
+  let es := [ESend clk0 (mkline 97 97); EBad; ESend clk0 (mkline 98 97); EFault clk0 FDirAway;
+             ESend clk0 (mkline 99 97); EFault clk0 FDirBack; ESend clk0 (mkline 100 97)] in
+  match wl_new 1024 true 0 [] with
+  | Some w => match wl_run w (es ++ [EIdle clk0]) with
+              | Some w' => sends_aligned es && no_blank_b (wl_accepted true es)
+                           && beq (rf_cur (wl_rf w')) (mkline 97 97 ++ mkline 98 97 ++ mkline 100 97)
+              | None => false
+              end
+  | None => false
+  end = true.
+Proof. vm_compute. reflexivity. Qed.
+
 Example C07_nonvacuous_new :
   (match wl_new 1024 true 0 [] with Some _ => true | None => false end) = true /\
   (match wl_new 1024 false 0 [] with Some _ => true | None => false end) = false /\
@@ -142,5 +194,6 @@ Print Assumptions C07_rotated_name_is_fresh.
 Print Assumptions C07_lines_kept_all_histories.
 Print Assumptions C07_lines_kept.
 Print Assumptions C07_scan_is_index_loop.
+Print Assumptions C07_channel_lines.
 Print Assumptions C07_send_always_returns.
 Print Assumptions C07_full_holds.
